@@ -93,12 +93,14 @@ class AsyncChannel(AsyncIterable[T]):
         self._waiting_receivers += 1
         try:
             result = await self._queue.get()
-            if result is self.__flush:
-                raise StopAsyncIteration
-            return result
         finally:
             self._waiting_receivers -= 1
-            self._queue.task_done()
+        # only an item that was actually taken from the queue is done (a receiver
+        # that is cancelled while waiting has taken nothing)
+        self._queue.task_done()
+        if result is self.__flush:
+            raise StopAsyncIteration
+        return result
 
     def closed(self) -> bool:
         """
@@ -164,12 +166,14 @@ class AsyncChannel(AsyncIterable[T]):
         self._waiting_receivers += 1
         try:
             result = await self._queue.get()
-            if result is self.__flush:
-                return None
-            return result
         finally:
             self._waiting_receivers -= 1
-            self._queue.task_done()
+        # only an item that was actually taken from the queue is done (a receiver
+        # that is cancelled while waiting has taken nothing)
+        self._queue.task_done()
+        if result is self.__flush:
+            return None
+        return result
 
     def close(self):
         """
